@@ -13,14 +13,20 @@ LEVEL_TEXT = (
     "after the filter's normalisation, for every text (case-sensitive extractors) or for every text free of the "
     "offending case variants (the three case-insensitive extractors: known finding). Per-extractor, hence valid for "
     "every sub-list. Tied to Python by regenerating the table on each run, by pattern-derived words checked against "
-    "the compiled patterns, and by differential runs of the two tokenizers."
+    "the compiled patterns, and by differential runs of the two tokenizers. On the EXECUTABLE tokenizer model "
+    "(Model/Extract.v: re.finditer by the verified engine over the live table) the statement is proved outright "
+    "(C13_tokenizers_agree): for every text free of the offending case variants the pre-filtered candidate list equals "
+    "the reference candidate list, in order; for every text it is a sub-list (C13_filter_sub). That model is tied to "
+    "both tokenizers' extract_tokens by the extract stream, and the engine to the compiled patterns by the regex stream."
 )
 RULE = (
     "words: for sampled (quick) / all (thorough) extractors, random words derived from the pattern's AST plus "
     "near-miss mutations; a word counts when the compiled pattern matches it (then the filter must select the "
     "extractor). tokenizers: generated documents through AhocorasickTokenizer and Tokenizer with the full list and "
     "with random sub-lists. Non-trivial = the pattern matches the word / the document yields >= 1 special token; "
-    "distinct by (extractor index, word) / (document, sub-list seed)."
+    "distinct by (extractor index, word) / (document, sub-list seed). regex: pattern-derived words, engine model vs "
+    "compiled pattern (span and group 1). extract: short documents, the model given the text only vs "
+    "list(extract_tokens(text)) of both tokenizers."
 )
 ASSUMPTIONS = [
     "every match reported by Python's re has a derivation in the declarative semantics M (Regex/Decl.v); exercised by the words stream",
